@@ -121,6 +121,21 @@ def standin_kak(tier, seed):
             R.bad("kak_canonicalize_vector result is not canonical", vector=v, result=(x, y, z))
         if not np.allclose(cirq.unitary(k), _xx(*v), atol=1e-6):
             R.bad("kak_canonicalize_vector changes the operation exp(i(xXX+yYY+zZZ))", vector=v, result=(x, y, z))
+        # a decomposition object built by hand from the same vector, handed to kak_decomposition and to a consumer
+        ru = lambda: cirq.testing.random_unitary(2, random_state=rng.randrange(10 ** 6))
+        hand = cirq.KakDecomposition(interaction_coefficients=v, global_phase=np.exp(0.7j), single_qubit_operations_before=(ru(), ru()), single_qubit_operations_after=(ru(), ru()))
+        try:
+            k2 = cirq.kak_decomposition(hand)
+            x, y, z = k2.interaction_coefficients
+            if not (PI / 4 + t >= x and x + t >= y and y + t >= abs(z)) or (abs(x - PI / 4) < 1e-9 and z < -t):
+                R.bad("kak_decomposition of a KakDecomposition is not canonical", vector=v, result=(x, y, z))
+            if not np.allclose(cirq.unitary(k2), cirq.unitary(hand), atol=1e-6):
+                R.bad("kak_decomposition of a KakDecomposition changes its unitary", vector=v)
+            c = cirq.decompose_two_qubit_interaction_into_four_fsim_gates(hand, fsim_gate=cirq.FSimGate(PI / 2, 0.1))
+            if not np.allclose(c.unitary(qubit_order=cirq.LineQubit.range(2), qubits_that_should_be_present=cirq.LineQubit.range(2)), cirq.unitary(hand), atol=1e-6):
+                R.bad("four-FSim synthesis from a hand-built KakDecomposition differs from its unitary", vector=v)
+        except Exception as ex:
+            R.bad(f"kak_decomposition(KakDecomposition) raised {type(ex).__name__}", vector=v)
     return R.out(F + ":kak_decomposition/kak_canonicalize_vector/kak_vector", "kak", "19 named + 26 boundary interactions (bare and dressed) + random two-qubit unitaries; canonicalisation of grid vectors")
 standin_kak.prop = "C15"
 
@@ -260,11 +275,12 @@ def standin_two_qubit_synthesis(tier, seed):
                 R.bad("two_qubit_matrix_to_ion_operations uses more than 3 MS gates", input=label, matrix=u)
         except Exception as ex:
             R.bad(f"two_qubit_matrix_to_ion_operations raised {type(ex).__name__}", input=label, matrix=u)
-        for fs in (cirq.FSimGate(PI / 2, PI / 6), cirq.FSimGate(3 * PI / 8, PI / 4), cirq.ISWAP):
+        for fs in (cirq.FSimGate(PI / 2, PI / 6), cirq.FSimGate(3 * PI / 8, PI / 4), cirq.ISWAP, cirq.ISwapPowGate(exponent=1, global_shift=0.3), cirq.ISwapPowGate(exponent=-1, global_shift=-0.5)):
             try:
                 c = cirq.decompose_two_qubit_interaction_into_four_fsim_gates(u, fsim_gate=fs, qubits=q)
                 two = [o for o in c.all_operations() if len(o.qubits) == 2]
-                if not _phase_eq(c.unitary(qubit_order=q, qubits_that_should_be_present=q), u, 1e-5):
+                # documented to carry its global phase operation: compared exactly
+                if not np.allclose(c.unitary(qubit_order=q, qubits_that_should_be_present=q), u, atol=1e-6):
                     R.bad("decompose_two_qubit_interaction_into_four_fsim_gates: circuit differs from the input", input=label, matrix=u, fsim=fs)
                 if len(two) != 4 or any(o.gate != fs for o in two):
                     R.bad("decompose_two_qubit_interaction_into_four_fsim_gates: not exactly four copies of the given gate", input=label, fsim=fs)
@@ -342,6 +358,20 @@ def standin_multi_qubit(tier, seed):
                     R.bad("quantum_shannon_decomposition emitted a gate on more than two qubits", matrix=u)
             except Exception as ex:
                 R.bad(f"quantum_shannon_decomposition raised {type(ex).__name__}", matrix=u, qubits=order)
+    # near-identity blocks: rotations by angles around the helper tolerances (1e-5 relative, 1e-8 absolute) must survive
+    from scipy.linalg import block_diag
+
+    for ang, g in itertools.product((1e-3, 1e-4, 1e-5, 2e-6), (cirq.rz, cirq.rx, cirq.ry)):
+        blk, one = np.kron(cirq.unitary(g(ang)), np.eye(2)), cirq.unitary(g(ang))
+        qs = cirq.LineQubit.range(3)
+        for u in (block_diag(np.eye(4), blk), block_diag(blk, np.eye(4)), np.kron(np.eye(2), block_diag(np.eye(2), one)), block_diag(blk, blk.conj().T)):
+            R.cases += 1
+            try:
+                got = cirq.Circuit(cirq.quantum_shannon_decomposition(qs, u)).unitary(qubit_order=qs, qubits_that_should_be_present=qs)
+                if not _phase_eq(got, u, 2e-7):
+                    R.bad("quantum_shannon_decomposition: a small rotation in one block is lost (error above 2e-7 with atol=1e-8)", angle=ang, gate=g(ang), matrix=u)
+            except Exception as ex:
+                R.bad(f"quantum_shannon_decomposition raised {type(ex).__name__}", angle=ang, matrix=u)
     for n in (1, 2, 4):
         for _ in range(3 if tier == "quick" else 12):
             R.cases += 1
@@ -425,7 +455,7 @@ def standin_states_and_cliffords(tier, seed):
     for th in [0.0, 0.3, PI / 2, PI, -0.4, 2 * PI - 1e-9, 1e-9] + [rng.uniform(-7, 7) for _ in range(5 if tier == "quick" else 60)]:
         for fs in (cirq.FSimGate(0.0, 0.7), cirq.FSimGate(0.2, 1.1), cirq.FSimGate(0.0, PI)):
             R.cases += 1
-            cz = cirq.CZPowGate(exponent=-th / PI)
+            cz = cirq.CZPowGate(exponent=-th / PI, global_shift=rng.choice([0, 0, 0.3, -0.5, 1]))
             try:
                 ops = cirq.decompose_cphase_into_two_fsim(cz, fsim_gate=fs, qubits=q)
             except ValueError:
@@ -433,8 +463,8 @@ def standin_states_and_cliffords(tier, seed):
             except Exception as ex:
                 R.bad(f"decompose_cphase_into_two_fsim raised {type(ex).__name__}", theta=th, fsim=fs)
                 continue
-            if not _phase_eq(_circ_unitary(ops, q), cirq.unitary(cz), 1e-5):
-                R.bad("decompose_cphase_into_two_fsim: circuit differs from the CZPowGate beyond a global phase", theta=th, fsim=fs)
+            if not np.allclose(_circ_unitary(ops, q), cirq.unitary(cz), atol=1e-6):  # "This implementation accounts for the global phase."
+                R.bad("decompose_cphase_into_two_fsim: circuit differs from the CZPowGate (global phase included)", theta=th, fsim=fs, gate=cz)
             if len([o for o in ops if len(o.qubits) == 2]) != 2:
                 R.bad("decompose_cphase_into_two_fsim does not use exactly two fsim gates", theta=th, fsim=fs)
     return R.out(F + ":state preparation, Clifford tableau synthesis, cphase->fsim", "states-cliffords", "10 special + random two-qubit states x 3 gate sets; random Clifford circuits on 1-4 qubits; cphase angles x 3 fsim gates")
